@@ -296,4 +296,43 @@ theorem normalize_ne_zero (v0 : E) (h : v0 ≠ 0) : ‖v0‖⁻¹ • v0 ≠ 0 :
   smul_ne_zero (inv_ne_zero (norm_ne_zero_iff.2 h)) h
 
 
+/-! ### scale equivariance: the zero test is exact, so no operator is "too small" -/
+
+theorem rq_smul_op (B : E →L[ℝ] E) (s : ℝ) (v : E) : rq (s • B) v = s * rq B v := by
+  unfold rq
+  rw [ContinuousLinearMap.smul_apply, inner_smul_right, mul_div_assoc]
+
+theorem nxt_smul_op (B : E →L[ℝ] E) (s : ℝ) (hs : 0 < s) (v : E) : nxt (s • B) v = nxt B v := by
+  unfold nxt
+  rw [ContinuousLinearMap.smul_apply, norm_smul, Real.norm_eq_abs, abs_of_pos hs, smul_smul, mul_inv]
+  congr 1
+  field_simp
+
+theorem smul_apply_eq_zero_iff (B : E →L[ℝ] E) (s : ℝ) (hs : 0 < s) (v : E) : (s • B) v = 0 ↔ B v = 0 := by
+  rw [ContinuousLinearMap.smul_apply, smul_eq_zero]
+  constructor
+  · rintro (h | h)
+    · exact absurd h (ne_of_gt hs)
+    · exact h
+  · intro h; exact Or.inr h
+
+/-- scaling the operator by `s > 0` scales every estimate by `s` and leaves the returned vector's direction
+    unchanged — for *every* `s`, however small (the zero exit tests `‖Bv‖ = 0` exactly) -/
+theorem powerLoop_smul_op (B : E →L[ℝ] E) (s : ℝ) (hs : 0 < s) :
+    ∀ (k : Nat) (mu : Option ℝ) (v : E),
+      (powerLoop (opsOf (s • B)) k (mu.map (s * ·)) v).1 = (powerLoop (opsOf B) k mu v).1.map (s * ·) := by
+  intro k
+  induction k with
+  | zero => intro mu v; rfl
+  | succ k ih =>
+    intro mu v
+    by_cases h : B v = 0
+    · rw [powerLoop_succ_zero B k mu v h,
+        powerLoop_succ_zero (s • B) k _ v ((smul_apply_eq_zero_iff B s hs v).2 h)]
+      simp
+    · rw [powerLoop_succ_ne B k mu v h,
+        powerLoop_succ_ne (s • B) k _ v (fun h' => h ((smul_apply_eq_zero_iff B s hs v).1 h')),
+        rq_smul_op, nxt_smul_op B s hs]
+      exact ih (some (rq B v)) (nxt B v)
+
 end Scico.Estim
